@@ -26,9 +26,11 @@ MANIFEST = {
             "calc_duration of the decoded block, for own-system events; the curr_dur accumulators of adc_times, rf_times and "
             "waveforms (and the cumsum-minus-own-duration start of their time_range variants) visit exactly the prefix sums "
             "of the stored durations; duration(), TotalDuration and the calculate_kspace total are that same sum; the "
-            "[BLOCKS] integer times the block raster reproduces an on-raster duration. The extracted model and an "
+            "[BLOCKS] integer times the block raster reproduces an on-raster duration and re-read durations give the same prefix "
+            "sums; the time_range variants of adc_times / rf_times / waveforms return a contiguous segment of the full result at "
+            "the same block starts; OwnArgs follows from the constructors' guarantees. The extracted model and an "
             "exact-Fraction oracle are run against add_block/set_block histories, write+read round trips and every "
-            "consumer's time axis on ~450 (quick) sequences over 5 raster families.",
+            "consumer's time axis on ~450 (quick) sequences over 8 raster families.",
     'note': 'Trusted: Coq kernel; translator patterns (block.py, calc_duration.py, sequence.py accumulation statements, '
             'write_seq.py); extraction + driver; binary64 sums are outside the model (tolerance 1e-9*scale+1e-12, three '
             'orders below the smallest raster); RF centre (calc_rf_center) and the corner times inside one gradient are taken '
@@ -41,10 +43,12 @@ SEARCH_BUDGET = 120
 MISMATCH_BUDGET = 0.0
 RULE = ('sequences of 1-9 blocks of compatible raster-aligned events (block/sinc RF with use tags, trapezoids incl. triangles, '
         'extended trapezoids also with tt[0]>0, arbitrary gradients, ADCs, triggers, labels, delays, plain-float delays) on 5 '
-        'raster families with random dead/ring-down times; 40% of the histories overwrite 1-3 blocks with set_block; padded '
+        'raster families (8 in total, three with pairwise different rasters) with random dead/ring-down times; 50% of the histories '
+        'overwrite 1-3 blocks with set_block AFTER decoding consumers warmed the block cache (new events, or the same events / the '
+        'same pre-registered ids / a pure delay with only the padding changed); event counters of duration(); padded '
         'sequences are written and re-read. Oracle (exact Fractions): stored duration == latest end over the input events == '
         'pp.calc_duration(*events) == pp.calc_duration(get_block); duration() total and count; every ADC sample time, RF '
-        'centre time and gradient corner time of waveforms_and_times / rf_times / adc_times (also with random time_range) and '
+        'centre time and gradient corner time of waveforms_and_times / rf_times / adc_times (also with time_range windows that start in the first block, at 0 and at random, incl. waveforms(time_range)) and '
         'the t_* outputs of calculate_kspace == prefix sum of the durations + the in-block time; TotalDuration and the '
         '[BLOCKS] column of the written file; durations after re-reading. Correspondence: set_block_duration, calc_duration, '
         'starts, adc/rf times, gradient piece ends and the [BLOCKS] integers of the extracted Coq model. '
